@@ -135,6 +135,58 @@ func (d *c14Driver) connect(kind string) (bool, *c14Conn) {
 	return true, c
 }
 
+// syncBurst: k clients run their handshake up to the point where they must
+// present their credentials, wait for each other, and then all authenticate at
+// the same instant, so that the server finishes k handshakes simultaneously.
+func (d *c14Driver) syncBurst(k int) []*c14Conn {
+	var arrived, wg sync.WaitGroup
+	release := make(chan struct{})
+	arrived.Add(k)
+	res := make([]*c14Conn, k)
+	for i := 0; i < k; i++ {
+		wg.Add(1)
+		go func(i int) {
+			defer wg.Done()
+			once := sync.Once{}
+			auth := ssh.PublicKeysCallback(func() ([]ssh.Signer, error) {
+				once.Do(func() { arrived.Done(); <-release })
+				return []ssh.Signer{d.key.Signer}, nil
+			})
+			client, raw, err := d.dial("tester", auth)
+			once.Do(func() { arrived.Done() }) // dial failed before authentication
+			if err != nil {
+				return
+			}
+			done := make(chan error, 1)
+			go func() {
+				_, _, e := client.SendRequest("keepalive@verif", true, nil)
+				done <- e
+			}()
+			select {
+			case e := <-done:
+				if e != nil {
+					client.Close()
+					return
+				}
+			case <-time.After(20 * time.Second):
+				client.Close()
+				return
+			}
+			res[i] = &c14Conn{client: client, raw: raw, kind: "syncburst"}
+		}(i)
+	}
+	arrived.Wait()
+	close(release)
+	wg.Wait()
+	var out []*c14Conn
+	for _, c := range res {
+		if c != nil {
+			out = append(out, c)
+		}
+	}
+	return out
+}
+
 // noise performs an operation which must not take a slot.
 func (d *c14Driver) noise(rng *rand.Rand, wrongKey *vlib.Key) string {
 	switch k := rng.Intn(5); k {
@@ -387,6 +439,35 @@ func c14Body(r *vlib.Run) int {
 		r.Count("operations", len(trace))
 		if hi < 2 {
 			r.Sample(map[string]interface{}{"max_connections": max, "history": trace, "stats_logged": c14Stats(srv)})
+		}
+		// synchronised bursts at open == 0: exactly Max must be served, every time
+		for b := 0; good && b < 8; b++ {
+			k := max + 1 + hrng.Intn(2*max+2)
+			conns := d.syncBurst(k)
+			trace = append(trace, fmt.Sprintf("syncburst(%d)=>served %d", k, len(conns)))
+			r.Count("synchronised_bursts", 1)
+			if len(conns) != max {
+				fail("burst-served-count", map[string]interface{}{"synchronised_burst": k, "served": len(conns), "want": max})
+				good = false
+			}
+			open = conns
+			if good {
+				good = quiesce()
+				for _, v := range c14Stats(srv) {
+					if v < 0 || v > max {
+						fail("reported-count-out-of-range", map[string]interface{}{"value": v})
+						good = false
+						break
+					}
+				}
+			}
+			for _, c := range open {
+				c.close(false)
+			}
+			open = nil
+			if good {
+				good = quiesce()
+			}
 		}
 		if good {
 			c14Linearizability(r, srv, d, max, hrng)
